@@ -149,8 +149,9 @@ xrep0_pipe_init(void *arg, nni_pipe *pipe, void *s)
 	// essentially don't let peers send requests faster than they are
 	// willing to receive replies.  Something to think about for the
 	// future.)
+	// If this fails, the core still closes, stops and finalizes the
+	// pipe (running xrep0_pipe_fini), so we must not do that here.
 	if ((rv = nni_msgq_init(&p->sendq, 64)) != 0) {
-		xrep0_pipe_fini(p);
 		return (rv);
 	}
 	return (0);
@@ -193,7 +194,9 @@ xrep0_pipe_close(void *arg)
 	nni_aio_close(&p->aio_send);
 	nni_aio_close(&p->aio_recv);
 	nni_aio_close(&p->aio_putq);
-	nni_msgq_close(p->sendq);
+	if (p->sendq != NULL) {
+		nni_msgq_close(p->sendq);
+	}
 
 	nni_mtx_lock(&s->lk);
 	nni_id_remove(&s->pipes, nni_pipe_id(p->pipe));
